@@ -306,9 +306,10 @@ def run(out: Outcome) -> None:
         kswin_case(out, rng, {"alpha": rng.choice([0.001, 0.01]), "min_num_instances": W, "num_test_instances": r}, xs, big)
         out.count("kswin_large_test_samples")
     for seed in [0, 1, 31, 2**31 - 5] + ([7, 12345] if thorough else []):
-        kswin_seed_case(out, rng, seed, gen.real_stream(rng, 80))
+        kswin_seed_case(out, rng, seed, [rng.gauss(0.9 * math.sin(t / 6.0), 1.0) for t in range(220)])     # (a wandering level: most verdicts depend on which older values are drawn)
     # (a slowly wandering level: at most steps the verdict depends on WHICH older values were drawn, so two runs that draw differently cannot agree by luck)
-    kswin_seed_across_processes(out, rng.choice([0, 5, 12345]), [rng.gauss(0.9 * math.sin(t / 6.0), 1.0) for t in range(400)])
+    for seed_x in (0, rng.choice([5, 12345])):       # (the falsy seed in every run)
+        kswin_seed_across_processes(out, seed_x, [rng.gauss(0.9 * math.sin(t / 6.0), 1.0) for t in range(400)])
     for _ in range(3 * n):
         p = gen.rand_params(rng, "STEPD")
         xs = [1 - v for v in gen.bernoulli_stream(rng, rng.randint(10, 300))]
